@@ -457,3 +457,4 @@ func (m *verifSyncMap) Range(f func(k, v any) bool) {
 		}
 	}
 }
+func verifFireTimer() {}
